@@ -4,10 +4,16 @@
    {"op":"run","method":m,"attrs":[..],"plan":{"switch":[[k,"zombie"|"gone"]],"deny":[[k,"EACCES"|"EPERM"]]},
     "impl":{"kind":"ok","shape":..}|{"kind":"exc","exc":cls,"pid":p|null}}
      → {"model":outcome,"trace":[..],"spec":{"ok":b,"ok_any":b,"gone_nsp":b|null}}
+   {"op":"hist","methods":[m,..],"plan":{..},"gone_from":k0|null,"impls":[outcome,..]}   (several calls on ONE object)
+     → {"models":[outcome,..],"starts":[k,..],"trace":[..],"spec":{"ok":[b,..],"gone_answer":[b|null,..]}}
+   `gone_answer[i]` = Spec.GoneAnswer decided on the implementation's i-th outcome when that call started at a
+   counter ≥ gone_from (null otherwise).
    `spec` is Spec.OK / Spec.IsNSP decided on the IMPLEMENTATION's outcome. -/
 import PsutilModel.Base.Proto
 import PsutilModel.Model.C03Gen
 import PsutilModel.Spec.C03
+import PsutilModel.Model.C03Hist
+import PsutilModel.Spec.C03Hist
 open Lean Psutil Psutil.Proto Psutil.C03
 
 def parseFdKind (s : String) : R FdKind :=
@@ -153,11 +159,59 @@ def program (w : World) (m : String) (attrs : List String) : Option (M Val) :=
   else if m == "process_iter" then some (Fe.processIter cfg attrs)
   else Fe.method cfg o m
 
+/-- the implementation's outcome with the one value shape `GoneAnswer` looks at (is_running() → bool) -/
+def parseImplVal (j : Json) : R (Option (Except PyExc Val)) := do
+  match ← parseImpl j with
+  | none => return none
+  | some (.error e) => return some (.error e)
+  | some (.ok ()) =>
+    match j.getObjVal? "shape" with
+    | .ok (Json.arr #[Json.str "bool", Json.bool b]) => return some (.ok (.bool b))
+    | _ => return some (.ok .none)
+
+def handleHist (w : World) (j : Json) : R Json := do
+  let ms ← listF asStr j "methods"
+  let (ws, deny) ← field j "plan" >>= parsePlan
+  let goneFrom ← optF asNat j "gone_from"
+  let impls ← listF parseImplVal j "impls"
+  let calls ← ms.mapM (fun m => match Fe.methodH cfg w.obj m with
+                                 | some h => pure h
+                                 | none => .error s!"{m} is not a history call")
+  let c : Ctx := { w := w, ws := ws, deny := deny }
+  -- thread the state by hand to keep the final trace
+  let rec go : List HCall → Flags → St → List (Nat × Except PyExc Val) × St
+    | [], _, s => ([], s)
+    | h :: rest, f, s =>
+      match h f c s with
+      | (.ok (out, f'), s') => let (l, sf) := go rest f' s'; ((s.k, out) :: l, sf)
+      | (.error e, s') => let (l, sf) := go rest f s'; ((s.k, .error e) :: l, sf)
+  let (outs, st) := go calls {} {}
+  let specOk : List Json := impls.map fun i => match i with
+    | none => Json.bool false
+    | some o => Json.bool (decide (Spec.OK w.target o))
+  let ans : List Json := (ms.zip (outs.zip impls)).map fun (m, (start, _), impl) =>
+    match goneFrom with
+    | some k0 =>
+      if k0 ≤ start then
+        match impl with
+        | none => Json.bool false
+        | some o => Json.bool (decide (Spec.GoneAnswer w.target m o))
+      else Json.null
+    | none => Json.null
+  return jObj [("models", jList (fun x => jOutcome (x.2.map canonVal)) outs),
+               ("starts", jList (fun x => jNat x.1) outs),
+               ("trace", jList Json.str (st.trace.reverse.map accStr)),
+               ("spec", jObj [("ok", Json.arr specOk.toArray), ("gone_answer", Json.arr ans.toArray)])]
+
 def handle (w : Option World) (j : Json) : R (Option World × Json) := do
   let op ← strF j "op"
   if op == "world" then
     let w' ← parseWorld j
     return (some w', ok (Json.str "world"))
+  if op == "hist" then
+    match w with
+    | none => .error "no world"
+    | some w => return (some w, ← handleHist w j)
   if op != "run" then .error s!"unknown op {op}"
   match w with
   | none => .error "no world"
